@@ -1017,6 +1017,7 @@ class Bench:
                 status = 'dont_care'
             if r.margin is not None and r.reason == 'exceeds capacity':
                 status = 'must_refuse' if -r.margin > F(1, 10 ** 4) * (pre.cap or 1) else 'dont_care'
+        coarse = ill and status == 'must_accept' and cond < F(1, 10)
         if ill and status != 'dont_care':
             status = 'dont_care'
         kw = {'name': new_name} if new_name else {}
@@ -1039,12 +1040,17 @@ class Bench:
         k11 = kid if 'C11' in excuse else None
         if status in ('must_accept', 'dont_care'):
             self.check_only_solvent_grew(pre, res, solvent, key, 'C11', k11)
-            if status == 'must_accept':
+            if status == 'must_accept' or coarse:
                 post = W.alpha_container(res)
                 got = W.model.concentration_base(post, solute, num, den)
                 rel = abs(got - c) / c if got is not None else None
                 # the library rounds a parsed concentration to p decimals in base units (mol/L, g/g, ...)
                 tol = cond
+                if coarse:
+                    # nanomolar targets: the rounding of the parsed target alone is percents of the target.  The decision is
+                    # not judged, the result still is - within three times what that rounding can do
+                    tol = 3 * cond
+                    self.stats['probe:dilute_coarse_target_checked'] += 1
                 if rel is not None:
                     self.note_ratio('dilute_target', rel, tol)
                 if rel is None or rel > tol:
